@@ -103,3 +103,60 @@ theorem c05_gen_channel_send_decision (s : St) (m : Nat) (hp : s.pc = .sending m
 
 end Chan
 end C05
+
+namespace C05
+
+/-- **the reader's loop decides with the translated conditions**: at the top of its loop (`dispatchMsgReader`, under
+the queue mutex) the model's reader stops iff `Gen.C05.reader_stops` (the `if n.closing`), else takes a message iff
+`Gen.C05.reader_has_message` (`len(n.msgDispatchQueue) > 0`) — the message `Gen.C05.reader_head` gives
+(`n.msgDispatchQueue[0]`), leaving the queue `Gen.C05.reader_rest` gives (`n.msgDispatchQueue[1:]`) — else goes to
+sleep.  All four are regenerated from `treenode.go` on every run. -/
+theorem c05_gen_reader_top (s : St) (hp : s.pc = .top) :
+    step s .reader = some (
+      if Gen.C05.reader_stops s.closing then { s with pc := .stopped }
+      else if Gen.C05.reader_has_message s.queue then
+        match Gen.C05.reader_head s.queue, Gen.C05.reader_rest s.queue with
+        | some m, some q => { s with queue := q, pc := .handling m, started := s.started ++ [m] }
+        | _, _ => s
+      else { s with pc := .waiting }) := by
+  simp only [step, hp, Gen.C05.reader_stops, Gen.C05.reader_has_message, Gen.C05.reader_head, Gen.C05.reader_rest]
+  cases hc : s.closing
+  · cases hq : s.queue with
+    | nil => simp [Gen.Rt.len]
+    | cons m q =>
+      have h1 : Gen.Rt.idx (m :: q) 0 = some m := by simp [Gen.Rt.idx]
+      have h2 : Gen.Rt.slice (m :: q) 1 (Gen.Rt.len (m :: q)) = some q := by
+        simp only [Gen.Rt.slice, Gen.Rt.len, List.length_cons]
+        have : ¬ ((1 : Int) < 0 ∨ (Int.ofNat (q.length + 1)) < 1 ∨ Int.ofNat (q.length + 1) < Int.ofNat (q.length + 1)) := by
+          simp only [Int.ofNat_eq_coe]; omega
+        simp only [this, if_false]
+        simp
+      have h3 : decide (Gen.Rt.len (m :: q) > 0) = true := by
+        have : (0 : Int) < ((q.length + 1 : Nat) : Int) := by omega
+        simpa [Gen.Rt.len] using this
+      simp only [h3, if_true, h1, h2, Bool.false_eq_true, if_false]
+  · simp
+
+/-- the queue always has a head and a rest when the translated test says it is not empty (the `| _, _ => s`
+branch above is never taken) -/
+theorem c05_gen_reader_pop_defined (q : List Nat) (h : Gen.C05.reader_has_message q = true) :
+    ∃ m r, q = m :: r ∧ Gen.C05.reader_head q = some m ∧ Gen.C05.reader_rest q = some r := by
+  cases q with
+  | nil => simp [Gen.C05.reader_has_message, Gen.Rt.len] at h
+  | cons m r =>
+    refine ⟨m, r, rfl, by simp [Gen.C05.reader_head, Gen.Rt.idx], ?_⟩
+    simp only [Gen.C05.reader_rest, Gen.Rt.slice, Gen.Rt.len, List.length_cons]
+    have : ¬ ((1 : Int) < 0 ∨ (Int.ofNat (r.length + 1)) < 1 ∨ Int.ofNat (r.length + 1) < Int.ofNat (r.length + 1)) := by
+      simp only [Int.ofNat_eq_coe]; omega
+    simp only [this, if_false]
+    simp
+
+/-- **the hand-over is the translated one** (`ProcessProtocolMsg`): refused iff `Gen.C05.accept_refused` (`if n.closing`),
+else appended at the end of the queue as `Gen.C05.accept_queue` (`append(n.msgDispatchQueue, msg)`) says -/
+theorem c05_gen_accept (s : St) (m : Nat) :
+    step s (.accept m) = some (if Gen.C05.accept_refused s.closing then s
+      else { s with queue := Gen.C05.accept_queue s.queue m, token := true, accepted := s.accepted ++ [m] }) := by
+  simp only [step, Gen.C05.accept_refused, Gen.C05.accept_queue]
+  cases s.closing <;> simp
+
+end C05
